@@ -66,7 +66,7 @@ func main() {
 		}
 	}
 	rng := vutil.Rng(6 + 1000**salt)
-	kinds := []string{"Transfer", "Transfer", "Transfer", "Deploy", "EthForward", "EthStale", "SelfDestruct2", "StaleGas", "CallForward", "CallRevert", "SelfDestruct", "CallCreate", "Stake", "Refund", "Mature", "CallExplicit", "CallExplicit"}
+	kinds := []string{"Transfer", "Transfer", "Transfer", "Deploy", "EthForward", "EthStale", "SelfDestruct2", "StaleGas", "CallForward", "CallRevert", "SelfDestruct", "CallCreate", "Stake", "Refund", "Mature", "CallExplicit", "CallExplicit", "SelfDestructFunded"}
 	for i := 0; i < *nRandom; i++ {
 		ops := make([]ledgerops.AbsOp, 0, *length)
 		for j := 0; j < *length; j++ {
